@@ -9,7 +9,7 @@
    position relative to the 2^31 / 2^32 / 2^63 / 2^64 wrap points is covered); g is the protocol's GenerateRequestID
    (GenU32 bolt/boltv2, GenS32 tars, GenU64 dubbo/dubbothrift).  Theorems quantify over all g, c0 and ALL histories. *)
 From Coq Require Import List NArith Bool.
-From MV Require Import Model.XConn Proofs.XConn.
+From MV Require Import Model.XConn Proofs.XConn Model.XAlloc Proofs.XAlloc Gen.XConnSrc.
 From MV Require Model.Pool Gen.PoolSrc Proofs.Pool.
 Import ListNotations.
 Open Scope N_scope.
@@ -60,6 +60,59 @@ Theorem c02_end_to_end_id : forall req u resp,
   f_payload (downstream_reply (server_stream_id req) resp) = f_payload resp.
 Proof. exact xserver_id_restore. Qed.
 Print Assumptions c02_end_to_end_id.
+
+(* Concurrent allocation.  Several goroutines allocate ids on ONE connection counter (worker goroutines of one multiplexed
+   upstream connection).  `xsrc_<proto>` is the shape of that protocol's GenerateRequestID, READ FROM THE SOURCE on this run
+   (Gen/XConnSrc.v): today a single atomic.AddUint64 with a cast for all of them.  For every number of threads, every
+   number of allocations per thread (todo), every initial counter and EVERY schedule of the atomic steps (Lib/Interleave):
+   as long as the allocations of the run fit into the id space, the ids handed out are pairwise distinct, and they are
+   exactly the ids of consecutive counter values.  (If a protocol's GenerateRequestID stops being one atomic step, the
+   `exact` below no longer type-checks.) *)
+Theorem c02_translator_ok : XConnSrc_translator_ok = true.
+Proof. exact (eq_refl true). Qed.
+
+Definition concurrent_alloc_distinct (pr : alloc_prog) (g : genk) : Prop :=
+  forall c0 todo sched, c0 < two64 -> N.of_nat (total_todo (athreads todo)) <= id_space g ->
+  let cfg := arun pr sched todo c0 in
+  NoDup (all_ids (fst cfg)) /\
+  exists m, (m <= total_todo (athreads todo))%nat /\ snd cfg = (c0 + N.of_nat m) mod two64 /\
+            Permutation.Permutation (all_ids (fst cfg)) (ids_upto g c0 m).
+
+Theorem c02_concurrent_alloc_bolt : concurrent_alloc_distinct xsrc_bolt GenU32 /\ concurrent_alloc_distinct xsrc_boltv2 GenU32.
+Proof. exact (conj (fun c0 todo sched H => alloc_atomic_distinct GenU32 c0 todo sched (or_introl eq_refl) H)
+                   (fun c0 todo sched H => alloc_atomic_distinct GenU32 c0 todo sched (or_introl eq_refl) H)). Qed.
+Print Assumptions c02_concurrent_alloc_bolt.
+
+Theorem c02_concurrent_alloc_tars : concurrent_alloc_distinct xsrc_tars GenS32.
+Proof. exact (fun c0 todo sched H => alloc_atomic_distinct GenS32 c0 todo sched (or_intror (or_introl eq_refl)) H). Qed.
+Print Assumptions c02_concurrent_alloc_tars.
+
+Theorem c02_concurrent_alloc_dubbo : concurrent_alloc_distinct xsrc_dubbo GenU64 /\ concurrent_alloc_distinct xsrc_dubbothrift GenU64.
+Proof. exact (conj (fun c0 todo sched H => alloc_atomic_distinct GenU64 c0 todo sched (or_intror (or_intror eq_refl)) H)
+                   (fun c0 todo sched H => alloc_atomic_distinct GenU64 c0 todo sched (or_intror (or_intror eq_refl)) H)). Qed.
+Print Assumptions c02_concurrent_alloc_dubbo.
+
+(* non-vacuity: three threads, 2+3+1 allocations, a schedule with stutters, counter crossing 2^31 with the tars generator *)
+Example c02_concurrent_alloc_example :
+  let cfg := arun xsrc_tars [2;0;1;1;7;0;2;1;0;1]%nat [2;3;1]%nat 2147483645 in
+  all_ids (fst cfg) = [18446744071562067970; 2147483647; 18446744071562067971; 18446744071562067969; 18446744071562067968; 2147483646]
+  /\ snd cfg = 2147483651.
+Proof. vm_compute. split; reflexivity. Qed.
+
+(* a wrap done in TWO atomic steps (add; if above the limit store 1 and return 1) is refuted: two threads, one allocation
+   each, counter at MaxInt32; interleaved both return 1 - although run one after the other they get 1 and 2 *)
+Definition c02_add_then_reset_statement : Prop :=
+  forall c0 todo sched, c0 < two64 -> N.of_nat (total_todo (athreads todo)) <= two31 ->
+  NoDup (all_ids (fst (arun (AddThenReset 2147483647) sched todo c0))).
+Theorem c02_add_then_reset_refuted : ~ c02_add_then_reset_statement.
+Proof.
+  intros H. specialize (H 2147483647 [1;1]%nat [0;1;0;1]%nat eq_refl).
+  assert (Hw : N.of_nat (total_todo (athreads [1; 1]%nat)) <= two31) by (vm_compute; discriminate).
+  specialize (H Hw). vm_compute in H. inversion H as [|x l Hnot _]. apply Hnot. left. reflexivity.
+Qed.
+Example c02_add_then_reset_sequential_ok :
+  all_ids (fst (arun (AddThenReset 2147483647) [0;0;1;1]%nat [1;1]%nat 2147483647)) = [1; 2].
+Proof. vm_compute. reflexivity. Qed.
 
 (* Ping-pong connections carry no usable request id on the wire (HTTP/1.1): correlation is by order.  For every
    history of the ping-pong pools (Model/Pool.v, theorems of C09) at most one stream is in flight on a connection, so the
